@@ -30,6 +30,14 @@ pub fn check_spec(rep: &mut Report, spec: &Spec, seed: u64) {
         1 => build_spec_clash(spec),
         _ => build_spec(spec),
     };
+    judge(rep, spec, built, seed);
+}
+
+/// judge the outcome of the (last) build() against the whole call list of `spec`
+pub fn judge(rep: &mut Report, spec: &Spec, built: Result<Result<aws_smt_strings::automata::Automaton, aws_smt_strings::errors::Error>, String>, seed: u64) {
+    let case = spec.to_text();
+    let states = spec.table();
+    let (class, why) = classify(&states);
     let res = match built {
         Ok(r) => r,
         Err(msg) => {
@@ -101,6 +109,7 @@ pub fn check_spec(rep: &mut Report, spec: &Spec, seed: u64) {
 pub fn run(p: &Params, rep: &mut Report) {
     let mut rng = p.rng(13);
     let n = p.size(20_000, 300_000);
+    let mut previous: Option<Spec> = None;
     for i in 0..n {
         let spec = match i % 10 {
             0..=4 => gen_wellformed(&mut rng, p.thorough),
@@ -129,6 +138,16 @@ pub fn run(p: &Params, rep: &mut Report) {
                 rep.violation("panic", "panic-unguarded", format!("crate panicked: {}", m), "autospec", &text, seed);
             }
         }
+        // two builders alive at the same time, fed alternately with this specification and the previous one
+        if i % 5 == 1 {
+            if let Some(prev) = &previous {
+                rep.inc("interleaved_builder_pairs");
+                let (ra, rb) = build_two_interleaved(prev, &spec);
+                judge(rep, prev, ra, seed);
+                judge(rep, &spec, rb, seed);
+            }
+        }
+        previous = Some(spec.clone());
         // the builder extended after a build: the same calls with one or two intermediate build() calls; the final
         // build must judge (and return) the whole specification, exactly like a fresh builder given all the calls
         if i % 3 == 0 && spec.calls.len() >= 2 {
